@@ -16,7 +16,7 @@ PROP = {
             "distinct = distinct input line. group filter-history: probe, a real session ending in {none, success download (real tsz), "
             "success upload (real trz), server fail, client fail, client fail before the session is taken, ctrl-C stop with an old "
             "server, stop-and-delete API, stop prompt answered, stop prompt left open while the server fails (fixed by 0263b73: must pass), refused upload / download (chooser stand-in answers Cancel), garbage instead of "
-            "CFG, CR-LF junk then 20 s timeout}, probe again in both directions; drag-and-drop histories followed in real time (a drop then a key of every class within the 300 ms window = called off, a drop then an ignored empty paste, a drop whose upload command the remote shell refuses, two drops within the window / during the 3 s bookkeeping / one after the other, a key during the bookkeeping: all of these ALSO evaluated by the model; a drop while a transfer runs, a drop whose upload the server fails, a drop ending in a real upload by a real trz), each followed by a probe of plain text, escape sequences, near-miss triggers and typed input; histories under SetAffectedByWindows(true) in which the trigger line of a refused / failed / completed (real tsz) transfer is displayed again (ids ending 00, 10, 20) and must pass untouched. group filter-exit: the trzsz binary built from the "
+            "CFG, CR-LF junk then 20 s timeout}, probe again in both directions; drag-and-drop histories followed in real time (a drop then a key of every class within the 300 ms window = called off, a drop then an ignored empty paste, a drop whose upload command the remote shell refuses, two drops within the window / during the 3 s bookkeeping / one after the other, a key during the bookkeeping: all of these ALSO evaluated by the model; a drop while a transfer runs, a drop whose upload the server fails, a drop ending in a real upload by a real trz), each followed by a probe of plain text, escape sequences, near-miss triggers and typed input; interrupt-window histories for drag uploads AND the UploadFiles API (a scripted server answers the client's own ctrl-C inside the 200 ms window with ordinary output / a fresh trigger line / both in one chunk in either order / ordinary then trigger / a trigger line split over two reads, plus a trigger just after the window): the non-firing ones evaluated by c05_run, ALL of them by c05_window (the window with the detector model of C06: what is shown and how many transfers start); histories under SetAffectedByWindows(true) in which the trigger line of a refused / failed / completed (real tsz) transfer is displayed again (ids ending 00, 10, 20) and must pass untouched. group filter-exit: the trzsz binary built from the "
             "repo around sh -c 'exit N' for N in {0,1,2,7,42,126,127,128,200,255} with several option flags, and 48 runs of a command "
             "that prints immediately before exiting.",
     "trusted": [
@@ -39,7 +39,7 @@ TEXT = {
             "drag detection incl. the Linux path-list parser and the 200 ms hold-back buffer, the uploadDragFiles and handleTrzsz "
             "goroutines): for every interleaving of reads of the two pumps and timer expiries from an idle state, as long as no "
             "detector fires, the terminal receives exactly the output chunks and the server exactly the typed bytes in order, the "
-            "state stays idle; a drop called off by any key within the 300 ms window leaves no trace and a completed drag upload leaves only the echo suppression (C05_drag_called_off, C05_drag_upload_completes); a redisplayed trigger with a remembered id passes untouched (C05_redisplayed_trigger_inert, composed with the detector model of C06); OSC52 never influences forwarding; the Linux drag detector fires only on a chunk that is entirely a "
+            "state stays idle; a drop called off by any key within the 300 ms window leaves no trace and a completed drag upload leaves only the echo suppression (C05_drag_called_off, C05_drag_upload_completes); in the 200 ms after the client's own ctrl-C exactly the chunks on which the detector fires are shown (disarmed) and start one transfer each, everything else is dropped, for every chunk list (C05_window_out, with C05_window_opens_drag/_api and C05_window_ends); a redisplayed trigger with a remembered id passes untouched (C05_redisplayed_trigger_inert, composed with the detector model of C06); OSC52 never influences forwarding; the Linux drag detector fires only on a chunk that is entirely a "
             "list of existing paths; along every run the session pointer is set exactly while one handler owns it, so after any "
             "history that has come to rest the wrapper is idle and transparent again. Tied to the code by regenerated constants, a "
             "regenerated control skeleton of wrapOutput/sendInput/handleTrzsz/uploadDragFiles pinned by reflexivity, and by "
